@@ -66,6 +66,8 @@ type lexer struct {
 	r     io.RuneScanner
 	n     int
 	token chan interface{}
+	req   chan struct{}
+	done  chan struct{}
 
 	mu     sync.Mutex
 	err    error
@@ -79,6 +81,8 @@ func newLexer(env *ExecEnv, r io.RuneScanner) *lexer {
 		env:    env,
 		r:      r,
 		token:  make(chan interface{}),
+		req:    make(chan struct{}),
+		done:   make(chan struct{}),
 		cancel: make(chan struct{}),
 	}
 	go l.run()
@@ -86,6 +90,11 @@ func newLexer(env *ExecEnv, r io.RuneScanner) *lexer {
 }
 
 func (l *lexer) Lex(lval *yySymType) int {
+	// request the next token
+	select {
+	case l.req <- struct{}{}:
+	case <-l.done:
+	}
 	switch tok := (<-l.token).(type) {
 	case token:
 		lval.expr.s = tok.val
@@ -100,6 +109,7 @@ func (l *lexer) Lex(lval *yySymType) int {
 func (l *lexer) run() {
 	defer func() {
 		close(l.token)
+		close(l.done)
 
 		if e := recover(); e != nil && e != bailout {
 			// re-panic
@@ -107,9 +117,26 @@ func (l *lexer) run() {
 		}
 	}()
 
+	l.wait()
 	for action := l.lexToken; action != nil; {
 		action = action()
 	}
+}
+
+// wait blocks until the parser requests the next token, so that the
+// lexer never runs ahead of the parser.
+func (l *lexer) wait() {
+	select {
+	case <-l.req:
+		select {
+		case <-l.cancel:
+		default:
+			return
+		}
+	case <-l.cancel:
+	}
+	// bailout
+	panic(bailout)
 }
 
 func (l *lexer) lexToken() action {
@@ -357,6 +384,7 @@ func (l *lexer) emit(typ int) {
 		// bailout
 		panic(bailout)
 	}
+	l.wait()
 }
 
 func (l *lexer) read() (rune, error) {
